@@ -258,16 +258,16 @@ CRITICAL_LITERALS = [
 
 
 def _lit_class(s: str) -> str:
-    cls = []
+    """One class per literal (first match), to keep signatures few and stable."""
     if '"' in s:
-        cls.append("double-quote")
+        return "double-quote"
     if any(ord(c) > 127 for c in s):
-        cls.append("non-ascii")
+        return "non-ascii"
     if "\\" in s:
-        cls.append("backslash")
+        return "backslash"
     if any(ord(c) < 32 or ord(c) == 127 for c in s):
-        cls.append("control-char")
-    return "+".join(cls) or "plain-ascii"
+        return "control-char"
+    return "plain-ascii"
 
 
 def _z3_lit(s: str):
@@ -478,7 +478,7 @@ def run(rep, tier, seed):
              "B: case = (literal, formula shape in eq / in_re / and-of-three-atoms); C: case = tree -> derivation_tree_to_json -> "
              "json.loads -> from_parse_tree, and solve --tree / parse / check through cli.main; every case is non-trivial")
     rep.bound("A: all histories of length <= 4 over 9 actions (7380 per tree)"
-              + (" -- quick tier: all of length <= 3 (819) plus 700 sampled of length 4 per tree" if quick else " exhaustively")
+              + (" -- quick tier: all of length <= 3 (819) plus 400 sampled of length 4 per tree" if quick else " exhaustively")
               + "; B: " + str(len(CRITICAL_LITERALS)) + " critical literals x 3 shapes"
               + ("" if quick else " plus all strings of length <= 2 over the alphabet a \" \\ \\n ä { } u") + "; C: named trees, fan/wide trees, "
               "6 solutions x 3 grammars through the CLI")
@@ -497,7 +497,7 @@ def run(rep, tier, seed):
         if quick:
             hs = [h for h in all_h if len(h) <= 3]
             rest = [h for h in all_h if len(h) == 4]
-            hs += random.Random(f"{seed}:{name}").sample(rest, 700)
+            hs += random.Random(f"{seed}:{name}").sample(rest, 400)
         else:
             hs = all_h
         for i in range(0, len(hs), 60):
@@ -516,7 +516,7 @@ def run(rep, tier, seed):
     for k in (1, 2, 28, 29, 40):
         for v in (0, 1, 2):
             jobs.append(("clijson", ["fan", k, v]))
-    for gname in ("assgn", "rightrec", "nullable"):
+    for gname in ("assgn", "rightrec", "csvish"):
         jobs.append(("clicmd", (gname, seed)))
     jobs = [(i, k, p) for i, (k, p) in enumerate(jobs)]
     with mp.Pool(16) as pool:
